@@ -61,8 +61,8 @@ def freq3(count, n, mfm):
     if n == 0:
         return False
     fl = count / n >= mfm
-    ex = Fraction(int(count), int(n)) >= Fraction(mfm)
-    if fl != ex or abs(count / n - mfm) <= 1e-12:
+    ex = Fraction(int(count), int(n)) >= Fraction(repr(float(mfm)))  # the decimal value the user wrote
+    if fl != ex:
         return None
     return fl
 
